@@ -44,8 +44,14 @@ static void ref_spectrum(Ctx& cx, const Desc& d)
         cx.refspec = es.eigenvalues();
 }
 
-template <typename T, typename Solver, typename In, typename MakeIn, typename MakeSolver>
-void run_with(const Desc& d, Ctx& cx, MakeIn make_in, MakeSolver make_solver)
+struct NoReshift
+{
+    template <typename In>
+    void operator()(In&) const {}
+};
+
+template <typename T, typename Solver, typename In, typename MakeIn, typename MakeSolver, typename Reshift = NoReshift>
+void run_with(const Desc& d, Ctx& cx, MakeIn make_in, MakeSolver make_solver, Reshift reshift = Reshift())
 {
     typedef CountOp<In> Op;
     typedef GenEigsBase<Op, IdentityBOp> Base;
@@ -59,6 +65,8 @@ void run_with(const Desc& d, Ctx& cx, MakeIn make_in, MakeSolver make_solver)
     r.make = [&]() { return make_solver(op); };
     const int n = cx.n;
     r.op_probe = [&]() { return probe_digest(op, n); };
+    if (!std::is_same<Reshift, NoReshift>::value)
+        r.op_reshift = [&]() { reshift(*in); };
     SymProblem sp;
     sp.blk = (int) d.i("blk", 0);
     r.run(&sp);
@@ -113,13 +121,15 @@ void dispatch(const Desc& d)
         {
             typedef SparseGenRealShiftSolve<T> In;
             typedef GenEigsRealShiftSolver<CountOp<In> > Solver;
-            run_with<T, Solver, In>(d, cx, [&]() { In* in = new In(As); if (d.has("presig")) in->set_shift((T) d.f("presig")); return in; }, [&](CountOp<In>& op) { return new Solver(op, nev, ncv, sigma); });
+            run_with<T, Solver, In>(d, cx, [&]() { In* in = new In(As); if (d.has("presig")) in->set_shift((T) d.f("presig")); return in; }, [&](CountOp<In>& op) { T sigvar = sigma; Solver* s = new Solver(op, nev, ncv, sigvar); sigvar = sigma + T(977); return s; },
+                                    [&](In& in) { in.set_shift((T) d.f("resig", 0.21L)); in.set_shift(sigma); });
         }
         else
         {
             typedef DenseGenRealShiftSolve<T> In;
             typedef GenEigsRealShiftSolver<CountOp<In> > Solver;
-            run_with<T, Solver, In>(d, cx, [&]() { In* in = new In(A); if (d.has("presig")) in->set_shift((T) d.f("presig")); return in; }, [&](CountOp<In>& op) { return new Solver(op, nev, ncv, sigma); });
+            run_with<T, Solver, In>(d, cx, [&]() { In* in = new In(A); if (d.has("presig")) in->set_shift((T) d.f("presig")); return in; }, [&](CountOp<In>& op) { T sigvar = sigma; Solver* s = new Solver(op, nev, ncv, sigvar); sigvar = sigma + T(977); return s; },
+                                    [&](In& in) { in.set_shift((T) d.f("resig", 0.21L)); in.set_shift(sigma); });
         }
     }
     else if (cls == "gencs")
@@ -139,13 +149,15 @@ void dispatch(const Desc& d)
         {
             typedef SparseGenComplexShiftSolve<T> In;
             typedef GenEigsComplexShiftSolver<CountOp<In> > Solver;
-            run_with<T, Solver, In>(d, cx, [&]() { In* in = new In(As); if (d.has("presig")) in->set_shift((T) d.f("presig"), (T) d.f("presigi", 1.0L)); return in; }, [&](CountOp<In>& op) { return new Solver(op, nev, ncv, sr, si); });
+            run_with<T, Solver, In>(d, cx, [&]() { In* in = new In(As); if (d.has("presig")) in->set_shift((T) d.f("presig"), (T) d.f("presigi", 1.0L)); return in; }, [&](CountOp<In>& op) { T srv = sr, siv = si; Solver* s = new Solver(op, nev, ncv, srv, siv); srv = sr + T(977); siv = si + T(31); return s; },
+                                    [&](In& in) { in.set_shift((T) d.f("resig", 0.21L), (T) d.f("resigi", 0.6L)); in.set_shift(sr, si); });
         }
         else
         {
             typedef DenseGenComplexShiftSolve<T> In;
             typedef GenEigsComplexShiftSolver<CountOp<In> > Solver;
-            run_with<T, Solver, In>(d, cx, [&]() { In* in = new In(A); if (d.has("presig")) in->set_shift((T) d.f("presig"), (T) d.f("presigi", 1.0L)); return in; }, [&](CountOp<In>& op) { return new Solver(op, nev, ncv, sr, si); });
+            run_with<T, Solver, In>(d, cx, [&]() { In* in = new In(A); if (d.has("presig")) in->set_shift((T) d.f("presig"), (T) d.f("presigi", 1.0L)); return in; }, [&](CountOp<In>& op) { T srv = sr, siv = si; Solver* s = new Solver(op, nev, ncv, srv, siv); srv = sr + T(977); siv = si + T(31); return s; },
+                                    [&](In& in) { in.set_shift((T) d.f("resig", 0.21L), (T) d.f("resigi", 0.6L)); in.set_shift(sr, si); });
         }
     }
     else
